@@ -259,7 +259,12 @@ def rqStep (X : Nat × Nat) : Nat × Nat :=
 def rqX : Nat × Nat :=
   iter (fun x y => x.1 == y.1 && x.2 == y.2) rqStep 16 (0, 0)
 
-def oeOfL (L : List (St × Option Ev)) (s : St) : Option Ev := (L.lookup s).getD none
+def nibOf (m : Nat) (s : St) : Nat := (m >>> (4 * s.ctorIdx)) % 16
+def evCode : Option Ev → Nat
+  | none => 0
+  | some e => e.ctorIdx + 1
+def evOfCode (n : Nat) : Option Ev := if n == 0 then none else some (Ev.ofNat (n - 1))
+def oeOfM (m : Nat) (s : St) : Option Ev := evOfCode (nibOf m s)
 
 /-- the (state, outstanding event) facts that one state with its outstanding event implies -/
 def oeSuccs (st : St) (o : Option Ev) : List (St × Option Ev) :=
@@ -284,18 +289,19 @@ def oeSuccs (st : St) (o : Option Ev) : List (St × Option Ev) :=
           | .enumBody => [(.stateEnumBodyClose, some .enumBegin)]
 
 /-- forward pass from `stateRoot` (depth first; the first fact found for a state is kept, `checkCode`
-then verifies that it is consistent with every other way of reaching the state) -/
-def oeDfs : Nat → List (St × Option Ev) → List (St × Option Ev) → List (St × Option Ev)
+then verifies that it is consistent with every other way of reaching the state).  The accumulator is the
+set of visited states and the map found so far (a nibble per state). -/
+def oeDfs : Nat → List (St × Option Ev) → Nat × Nat → Nat × Nat
   | 0, _, acc => acc
   | _, [], acc => acc
-  | n + 1, p :: w, acc =>
-    if (acc.lookup p.1).isSome then oeDfs n w acc
-    else oeDfs n (oeSuccs p.1 p.2 ++ w) (p :: acc)
+  | n + 1, p :: w, (vis, m) =>
+    if bitOf vis p.1 then oeDfs n w (vis, m)
+    else oeDfs n (oeSuccs p.1 p.2 ++ w) (vis ||| (1 <<< p.1.ctorIdx), m + (evCode p.2 <<< (4 * p.1.ctorIdx)))
 
-def oeL : List (St × Option Ev) := oeDfs 4096 [(.stateRoot, none)] []
+def oeM : Nat := (oeDfs 4096 [(.stateRoot, none)] (0, 0)).2
 
 /-- the certificate of the current table -/
-def cert : Cert := { nt := bitOf ntM, oe := oeOfL oeL, rq := byteOf rqX.1, srq := rqX.2, regs := regsL }
+def cert : Cert := { nt := bitOf ntM, oe := oeOfM oeM, rq := byteOf rqX.1, srq := rqX.2, regs := regsL }
 
 def checkAll : Bool := checkInit cert && St.all.all fun st => checkCode cert st (code st)
 
